@@ -304,7 +304,7 @@ C_Close ==
 
 C_Waited ==
   /\ cpc = "wait" /\ AllDone /\ cpc' = "idle"
-  /\ hist' = Append(hist, [op |-> "closed"])
+  /\ hist' = hist \o << [op |-> "closed"], [op |-> "offs", cur |-> cOff, prev |-> pOff] >>
   /\ UNCHANGED << cfg, started, cancelled, parentCancelled, pipeVars, cData, cIndex, pOff, cOff, sErr, closed, delivered, lastScan >>
 
 \* Err() as the scanner computes it
@@ -437,6 +437,24 @@ OffA(c, k) == IF c.hdr # "none" THEN k ELSE k - 1
 HOffsOK(c, H) == \A i \in Rets(H) : (i < StopBegin(H) /\ H[i].ok) =>
                     /\ H[i].cur = OffA(c, H[i].blk)
                     /\ H[i].prev = (IF H[i].blk = 1 THEN 0 ELSE OffA(c, H[i].blk - 1))
+\* C09: offsets observed when no object was returned by the last call -- after the Scan that reported a clean end of input, and
+\* after Close ([op |-> "offs"]): resuming at the reported offset must still not skip an element, i.e. it is the offset of the
+\* block of the most recently returned object or of an empty block behind it (no delivering block in between).  Judged only in
+\* histories without a context cancellation (an in-flight Scan may have taken blocks it then dropped).
+LastTrue(H, i) == LET S == {j \in Rets(H) : j < i /\ H[j].ok} IN IF S = {} THEN 0 ELSE CHOOSE j \in S : \A k \in S : k <= j
+BlkOfOff(c, o) == IF c.hdr # "none" THEN o ELSE o + 1          \* inverse of OffA for block starts
+HOffsEndOK(c, H) ==
+  (Idx(H, {"cancel", "cancel.b"}) = {}) =>
+  \A i \in 1 .. Len(H) :
+     ( \/ (H[i].op = "offs" /\ ~\E j \in Rets(H) : j < i /\ ~H[j].ok /\ FinalErrOf(c) # "eof")   \* not after the scan ended in an error
+       \/ (H[i].op = "ret" /\ ~H[i].ok /\ i < StopBegin(H) /\ FinalErrOf(c) = "eof") ) =>
+     LET lt == LastTrue(H, i)
+         lastBlk == IF lt = 0 THEN 0 ELSE H[lt].blk
+         b == BlkOfOff(c, H[i].cur) IN
+     IF lastBlk = 0 /\ H[i].cur = 0 THEN TRUE                  \* nothing returned yet, nothing taken
+     ELSE /\ b \in 1 .. Len(c.blocks) /\ b >= lastBlk
+          /\ \A k \in lastBlk + 1 .. b : c.blocks[k].k = "data" /\ c.blocks[k].n = 0
+
 \* C06/C07: Err().  Classes as the recorder can tell them apart: "nil", "closed", "canceled", "trunc" (io.ErrUnexpectedEOF),
 \* "other" (any other error: undecodable block, unexpected block type, unsupported feature, ...)
 ErrCls(e) == CASE e = "eof" -> "nil" [] e \in {"decode", "type", "feature"} -> "other" [] OTHER -> e
@@ -484,6 +502,7 @@ RunWhy(r) ==
   (IF HCompleteOK(r.cfg, r.H) THEN {} ELSE {"complete: scan ended by itself without delivering every object"}) \cup
   (IF HLaterFalseOK(r.H) THEN {} ELSE {"stop: Scan returned true after Close/cancel"}) \cup
   (IF HOffsOK(r.cfg, r.H) THEN {} ELSE {"offsets: FullyScannedBytes/PreviousFullyScannedBytes wrong"}) \cup
+  (IF HOffsEndOK(r.cfg, r.H) THEN {} ELSE {"offsets: offset reported after the end of the scan / after Close would skip elements on resume"}) \cup
   (IF HErrOK(r.cfg, r.H) THEN {} ELSE {"err: Err() class not allowed by the precedence rule"}) \cup
   (IF HReadAheadOK(r) THEN {} ELSE {"readahead: input consumed to the end after the stop"}) \cup
   (IF HResumeOK(r) THEN {} ELSE {"resume: scanner restarted at a reported offset did not yield exactly the remaining objects"}) \cup
